@@ -160,11 +160,36 @@ def ufun(name, *sorts):
     return _UF[name]
 
 
+class _ArrayArg(Exception):
+    def __init__(self, arr):
+        self.arr = arr
+
+
 def _real_arg(m, a, node):
     a = m.force(a, node)
+    if type(a).__name__ == "SArr":
+        raise _ArrayArg(a)
     if isinstance(a, (SList, SymList, tuple)):
         raise Unsupported("numpy array argument", node)
     return a
+
+
+def elementwise1(fn):
+    """lift a scalar library function to arrays of concrete shape (first argument)"""
+
+    def wrapped(m, args, kw, node):
+        try:
+            return fn(m, args, kw, node)
+        except _ArrayArg as e:
+            from . import npmodel
+
+            a = e.arr
+            if not any(x is a for x in args[:1]) and m.force(args[0], node) is not a:
+                raise Unsupported("array in a non-leading argument", node)
+            out = [fn(m, [x] + list(args[1:]), kw, node) for x in a.data]
+            return npmodel.SArr(a.shape, out, "real")
+
+    return wrapped
 
 
 def _exp_axioms(m):
@@ -395,27 +420,41 @@ def rng_method(m, o, name, args, kw, node):
     if name == "uniform":
         lo = args[0] if args else kw.get("low", Fraction(0))
         hi = args[1] if len(args) > 1 else kw.get("high", Fraction(1))
-        if kw.get("size") is not None or len(args) > 2:
-            raise Unsupported("rng.uniform with size", node)
+        size = kw.get("size", args[2] if len(args) > 2 else None)
+        if size is not None:
+            size = m.force(size, node)
+            if not isinstance(size, int):
+                raise Unsupported("rng.uniform with symbolic size", node)
+            from . import npmodel
+
+            return npmodel.SArr((size,), [rng_method(m, o, "uniform", [lo, hi], {}, node) for _ in range(size)], "real")
         r = m.fresh_scalar("real", "rng.uniform")
         m.assume(z3.And(r.t >= m.z(m.force(lo), "real"), r.t < z3.If(m.z(m.force(hi), "real") > m.z(m.force(lo), "real"), m.z(m.force(hi), "real"), m.z(m.force(lo), "real") + 1)))
         # numpy: low == high returns low
         m.assume(z3.Implies(m.z(m.force(hi), "real") == m.z(m.force(lo), "real"), r.t == m.z(m.force(lo), "real")))
         calls.append(("uniform", r))
+        m.abstract_returns.append(("rng", "uniform", r))
         return r
     if name == "randint":
         lo = args[0] if args else kw.get("low")
         hi = args[1] if len(args) > 1 else kw.get("high")
         if hi is None:
             lo, hi = 0, lo
-        if kw.get("size") is not None or len(args) > 2:
-            raise Unsupported("rng.randint with size", node)
+        size = kw.get("size", args[2] if len(args) > 2 else None)
+        if size is not None:
+            size = m.force(size, node)
+            if not isinstance(size, int):
+                raise Unsupported("rng.randint with symbolic size", node)
+            from . import npmodel
+
+            return npmodel.SArr((size,), [rng_method(m, o, "randint", [lo, hi], {}, node) for _ in range(size)], "int")
         lo_t, hi_t = m.z(m.force(lo), "int"), m.z(m.force(hi), "int")
         if m.branch(lo_t >= hi_t, node):
             raise PyRaise("ValueError", node)
         r = m.fresh_scalar("int", "rng.randint")
         m.assume(z3.And(r.t >= lo_t, r.t < hi_t))
         calls.append(("randint", r))
+        m.abstract_returns.append(("rng", "randint", r))
         return r
     if name in ("rand", "random", "random_sample"):
         if args or kw:
@@ -423,15 +462,23 @@ def rng_method(m, o, name, args, kw, node):
         r = m.fresh_scalar("real", "rng.rand")
         m.assume(z3.And(r.t >= 0, r.t < 1))
         calls.append(("rand", r))
+        m.abstract_returns.append(("rng", "rand", r))
         return r
     if name == "choice":
         seq = m.force(args[0], node)
-        if kw.get("size") is not None or len(args) > 1:
-            raise Unsupported("rng.choice with size/p", node)
+        size = kw.get("size", args[1] if len(args) > 1 else None)
+        if size is not None:
+            size = m.force(size, node)
+            if not isinstance(size, int) or kw.get("p") is not None:
+                raise Unsupported("rng.choice with symbolic size / p", node)
+            from . import npmodel
+
+            return npmodel.SArr((size,), [rng_method(m, o, "choice", [seq], {}, node) for _ in range(size)], "int")
         if isinstance(seq, (int, Sym)):
             n_t = m.z(seq, "int")
             r = m.fresh_scalar("int", "rng.choice")
             m.assume(z3.And(r.t >= 0, r.t < n_t))
+            m.abstract_returns.append(("rng", "choice", r))
             return r
         n = m.length(seq, node)
         if isinstance(n, int) and n == 0:
@@ -439,6 +486,7 @@ def rng_method(m, o, name, args, kw, node):
         r = m.fresh_scalar("int", "rng.choice")
         m.assume(z3.And(r.t >= 0, r.t < m.z(n, "int")))
         calls.append(("choice", r))
+        m.abstract_returns.append(("rng", "choice", r))
         return m.getitem(seq, r, node)
     if name == "normal":
         r = m.fresh_scalar("real", "rng.normal")
@@ -637,3 +685,23 @@ def coll_deque(m, args, kw, node):
 @ext("time.perf_counter", "monotone clock")
 def time_perf_counter(m, args, kw, node):
     return time_time(m, args, kw, node)
+
+
+for _k in ("numpy.exp", "numpy.log", "numpy.round", "numpy.rint", "numpy.around", "numpy.ceil", "numpy.floor", "numpy.clip", "numpy.abs", "numpy.sqrt"):
+    if _k in EXTERNAL:
+        EXTERNAL[_k] = elementwise1(EXTERNAL[_k])
+
+
+@ext("numpy.divide", "true division")
+def np_divide(m, args, kw, node):
+    return m.binop(ast.Div(), m.force(args[0], node), m.force(args[1], node), node)
+
+
+@ext("numpy.log1p", "A-TRANSC: log1p(x) == log(1 + x)")
+def np_log1p(m, args, kw, node):
+    return EXTERNAL["numpy.log"](m, [m.binop(ast.Add(), 1, args[0], node)], {}, node)
+
+
+@ext("numpy.expm1", "A-TRANSC: expm1(x) == exp(x) - 1")
+def np_expm1(m, args, kw, node):
+    return m.binop(ast.Sub(), EXTERNAL["numpy.exp"](m, [args[0]], {}, node), 1, node)
